@@ -17,8 +17,8 @@ RULE = ("two real dilated wormholes; random interleavings of listener_for(name).
         "either side is recorded (its id). Non-trivial = at least one subchannel was opened and closed; "
         "distinct = scheduler decision traces.")
 ASSUMPTIONS = ["Noise stand-in", "bounded progress: 300 virtual seconds"]
-FLOORS = {"quick": {"subchannels": 500, "closes": 200, "writes_after_close": 100, "writes_right_after_close": 300, "half_closed_subchannels_at_wormhole_close": 60, "undeclared_opens": 40, "late_listens": 40, "connects_around_wormhole_close": 200},
-          "thorough": {"subchannels": 15000, "closes": 6000, "writes_after_close": 3000, "writes_right_after_close": 9000, "half_closed_subchannels_at_wormhole_close": 2000, "undeclared_opens": 1200, "late_listens": 1200, "connects_around_wormhole_close": 6000}}
+FLOORS = {"quick": {"half_closeable_protocols_judged_per_direction": 200, "subchannels": 500, "closes": 200, "writes_after_close": 100, "writes_right_after_close": 300, "half_closed_subchannels_at_wormhole_close": 60, "undeclared_opens": 40, "late_listens": 40, "connects_around_wormhole_close": 200},
+          "thorough": {"half_closeable_protocols_judged_per_direction": 4000, "subchannels": 15000, "closes": 6000, "writes_after_close": 3000, "writes_right_after_close": 9000, "half_closed_subchannels_at_wormhole_close": 2000, "undeclared_opens": 1200, "late_listens": 1200, "connects_around_wormhole_close": 6000}}
 NAMES = ["p0", "p1", "ünï-proto", "x" * 40]
 
 _created = []
